@@ -15,6 +15,9 @@ pub struct GenCtx {
     pub allow_large: bool,
     /// may pick transient constructors of enums (values whose encoding must fail with the dedicated error)
     pub transient_ctors: bool,
+    /// numbers outside the value domain of the time types (month 13, year beyond chrono's range, offsets beyond a day,
+    /// nanoseconds beyond a second …): well-framed but meaningless wire data for the hostile decode workloads
+    pub out_of_domain: bool,
 }
 
 impl Default for GenCtx {
@@ -34,6 +37,7 @@ impl Default for GenCtx {
             max_len: 6,
             allow_large: true,
             transient_ctors: false,
+            out_of_domain: false,
         }
     }
 }
@@ -237,12 +241,78 @@ fn gen_date_inner(rng: &mut Rng) -> Val {
     }
 }
 
+/// like `gen_val` but not canonicalised (out-of-domain numbers must reach the wire as drawn)
+pub fn gen_raw(ty: &Ty, rng: &mut Rng, ctx: &GenCtx) -> Val {
+    gen(ty, rng, ctx, 0)
+}
+
+fn wild(rng: &mut Rng, edges: &[i64], lo: i64, hi: i64) -> i64 {
+    if rng.chance(1, 2) {
+        *rng.pick(edges)
+    } else {
+        rng.range(lo, hi)
+    }
+}
+
+fn wild_date(rng: &mut Rng) -> Val {
+    let y = wild(rng, &[YEAR_MIN, YEAR_MAX, YEAR_MIN - 1, YEAR_MAX + 1, i32::MIN as i64, i32::MAX as i64, 0, -1], -300_000, 300_000);
+    let m = wild(rng, &[0, 1, 12, 13, 255, 2], 0, 13);
+    let d = wild(rng, &[0, 1, 28, 29, 30, 31, 32, 255], 0, 32);
+    Val::Tuple(vec![Val::I(y as i128), Val::U(m as u128), Val::U(d as u128)])
+}
+
+fn wild_time(rng: &mut Rng) -> Val {
+    let h = wild(rng, &[0, 23, 24, 255], 0, 25);
+    let m = wild(rng, &[0, 59, 60, 255], 0, 61);
+    let s = wild(rng, &[0, 59, 60, 255], 0, 61);
+    let n = wild(rng, &[0, 999_999_999, 1_000_000_000, 1_999_999_999, 2_000_000_000, u32::MAX as i64], 0, u32::MAX as i64);
+    Val::Tuple(vec![Val::U(h as u128), Val::U(m as u128), Val::U(s as u128), Val::U(n as u128)])
+}
+
+fn wild_offset(rng: &mut Rng) -> Val {
+    Val::I(wild(rng, &[0, 86_399, -86_399, 86_400, -86_400, i32::MAX as i64, i32::MIN as i64, 1, -1, 3600], -100_000, 100_000) as i128)
+}
+
 pub fn gen_val(ty: &Ty, rng: &mut Rng, ctx: &GenCtx) -> Val {
     let v = gen(ty, rng, ctx, 0);
     canon(ty, &v).expect("generated value is canonicalisable")
 }
 
 fn gen(ty: &Ty, rng: &mut Rng, ctx: &GenCtx, depth: usize) -> Val {
+    if ctx.out_of_domain {
+        match ty {
+            Ty::Weekday | Ty::Month => return Val::U(wild(rng, &[0, 1, 7, 8, 12, 13, 127, 128, 255], 0, 255) as u128),
+            Ty::FixedOffset => return wild_offset(rng),
+            Ty::Tz => {
+                if rng.chance(1, 2) {
+                    return Val::Str(gen_string(rng, false));
+                }
+            }
+            Ty::DateTimeUtc => {
+                let s = wild(rng, &[UTC_TS_MIN, UTC_TS_MAX, UTC_TS_MIN - 1, UTC_TS_MAX + 1, i64::MIN, i64::MAX, 0, 59, -1], i64::MIN / 2, i64::MAX / 2);
+                let n = wild(rng, &[0, 999_999_999, 1_000_000_000, 1_999_999_999, 2_000_000_000, u32::MAX as i64], 0, u32::MAX as i64);
+                return Val::Tuple(vec![Val::I(s as i128), Val::U(n as u128)]);
+            }
+            Ty::NaiveDate => return wild_date(rng),
+            Ty::NaiveTime => return wild_time(rng),
+            Ty::NaiveDateTime | Ty::DateTimeLocal => return Val::Tuple(vec![wild_date(rng), wild_time(rng)]),
+            Ty::DateTimeFixed => return Val::Tuple(vec![Val::Tuple(vec![wild_date(rng), wild_time(rng)]), wild_offset(rng)]),
+            Ty::DateTimeTz => {
+                let tz = gen(&Ty::Tz, rng, ctx, depth);
+                return Val::Tuple(vec![Val::Tuple(vec![wild_date(rng), wild_time(rng)]), tz]);
+            }
+            Ty::Duration => {
+                let s = if rng.chance(1, 2) { u64::MAX as u128 } else { uint(rng, 64) };
+                return Val::Tuple(vec![Val::U(s), Val::U(wild(rng, &[0, 999_999_999, 1_000_000_000, u32::MAX as i64], 0, u32::MAX as i64) as u128)]);
+            }
+            Ty::BigDecimal => {
+                if rng.chance(1, 2) {
+                    return Val::Str(rng.pick(&["", "-", "1e", "1e99999999999999999999", "0x10", "1_000", ".", "1.2.3", "NaN", "inf", "1e-9223372036854775808", "+5", " 7 "]).to_string());
+                }
+            }
+            _ => {}
+        }
+    }
     match ty {
         Ty::Named(n) => gen(&resolve(n), rng, ctx, depth),
         Ty::VarU32 => Val::U(uint(rng, 32)),
